@@ -56,7 +56,9 @@ pub enum Op { Union, Inter, Diff, SymDiff, Subset, PSubset, Superset, PSuperset,
 const OPS: [Op; 14] = [Op::Union, Op::Inter, Op::Diff, Op::SymDiff, Op::Subset, Op::PSubset, Op::Superset, Op::PSuperset, Op::In, Op::NotIn, Op::Size, Op::Insert, Op::Remove, Op::Literal];
 
 #[derive(Clone, Copy, Debug, PartialEq, Eq, Hash, Serialize, Deserialize)]
-pub enum Route { Literal, Variable, FromMatrix, WordForm }
+pub enum Route { Literal, Variable, FromMatrix, WordForm,
+  /// mixed operand forms (each takes its own dispatch arm): literal-variable, variable-literal, and a parenthesised expression on the left / right
+  LitVar, VarLit, ExprVar, VarExpr, WordLitVar }
 
 #[derive(Clone, Debug, Serialize, Deserialize)]
 pub enum Case {
@@ -76,7 +78,7 @@ impl Prop for C14 {
   const ID: &'static str = "C14";
   fn budget(t: Tier) -> u32 { t.pick(10_000, 200_000) }
   fn strategy(_t: Tier, _k: &Known) -> BoxedStrategy<Case> {
-    let alg = (pick(UNIVERSES.to_vec()), pick(OPS.to_vec()), pick(vec![Route::Literal, Route::Literal, Route::Variable, Route::FromMatrix, Route::WordForm]))
+    let alg = (pick(UNIVERSES.to_vec()), pick(OPS.to_vec()), pick(vec![Route::Literal, Route::Literal, Route::Variable, Route::FromMatrix, Route::WordForm, Route::LitVar, Route::VarLit, Route::ExprVar, Route::VarExpr, Route::WordLitVar]))
       .prop_flat_map(|(u, op, route)| (els(u, 7), els(u, 7), (0..u.size(), 0u8..3)).prop_map(move |(a, b, (id, sp))| Case::Algebra { u, a, b, e: El { id, sp }, op, route })).boxed();
     let mixed = (pick(UNIVERSES.to_vec()), pick(UNIVERSES.to_vec()), pick(vec![Op::Union, Op::Inter, Op::Diff, Op::SymDiff, Op::Insert]))
       .prop_filter("same", |(a, b, _)| a != b)
@@ -122,11 +124,16 @@ fn render(c: &Case) -> Vec<String> {
           st.push(format!("b<{{{}}}> := mb", kind));
           ("a".to_string(), "b".to_string())
         }
+        Route::LitVar | Route::WordLitVar => { st.push(format!("b := {}", lit_of(*u, b))); (lit_of(*u, a), "b".to_string()) }
+        Route::VarLit => { st.push(format!("a := {}", lit_of(*u, a))); ("a".to_string(), lit_of(*u, b)) }
+        // `(a ∪ a)` denotes the same set as a: an expression operand (not a variable, not a literal)
+        Route::ExprVar => { st.push(format!("a := {}", lit_of(*u, a))); st.push(format!("b := {}", lit_of(*u, b))); ("(a ∪ a)".to_string(), "b".to_string()) }
+        Route::VarExpr => { st.push(format!("a := {}", lit_of(*u, a))); st.push(format!("b := {}", lit_of(*u, b))); ("a".to_string(), "(b ∪ b)".to_string()) }
         _ => (lit_of(*u, a), lit_of(*u, b)),
       };
       let et = elem_text(*u, e);
       let expr = match op {
-        Op::Union | Op::Inter | Op::Diff | Op::SymDiff => if *route == Route::WordForm { format!("{}({}, {})", opword(*op).unwrap(), ta, tb) } else { format!("{} {} {}", ta, opsym(*op), tb) },
+        Op::Union | Op::Inter | Op::Diff | Op::SymDiff => if matches!(route, Route::WordForm | Route::WordLitVar) { format!("{}({}, {})", opword(*op).unwrap(), ta, tb) } else { format!("{} {} {}", ta, opsym(*op), tb) },
         Op::Subset | Op::PSubset | Op::Superset | Op::PSuperset => format!("{} {} {}", ta, opsym(*op), tb),
         Op::In | Op::NotIn => format!("{} {} {}", et, opsym(*op), ta),
         Op::Size => format!("set/size({})", ta),
